@@ -1,6 +1,8 @@
 package props
 
 import (
+	"bytes"
+	"context"
 	"encoding/json"
 	"fmt"
 	"os"
@@ -10,6 +12,7 @@ import (
 	"strings"
 	"sync"
 	"testing"
+	"time"
 
 	"github.com/elastic/go-seccomp-bpf/arch"
 
@@ -446,4 +449,146 @@ func TestC19ArchDigest(t *testing.T) {
 	ev.Register("C19", "arch-digest", checkC19ArchDigest)
 	seed := int(shardSeed() % 1000000)
 	ev.CheckOne(t, "C19", "arch-digest", c19ArchDigestCase{Corpus: corpusPolicies(ev.Scale(200, 2000), seed)}, checkC19ArchDigest)
+}
+
+// ---- a non-Linux target without syscall tables, really executed: js/wasm under node ----
+
+type c19WasmCase struct {
+	Corpus []json.RawMessage `json:"corpus"`
+}
+
+func wasmExecNode() (node, script string, ok bool) {
+	node, err := exec.LookPath("node")
+	if err != nil {
+		return "", "", false
+	}
+	out, err := exec.Command("go", "env", "GOROOT").Output()
+	if err != nil {
+		return "", "", false
+	}
+	root := strings.TrimSpace(string(out))
+	for _, rel := range []string{"misc/wasm/wasm_exec_node.js", "lib/wasm/wasm_exec_node.js"} {
+		if _, err := os.Stat(filepath.Join(root, rel)); err == nil {
+			return node, filepath.Join(root, rel), true
+		}
+	}
+	return "", "", false
+}
+
+func checkC19Wasm(raw json.RawMessage) (ev.Result, error) {
+	var c c19WasmCase
+	if err := json.Unmarshal(raw, &c); err != nil {
+		return ev.Result{}, ev.Inconclusivef("bad case: %v", err)
+	}
+	node, script, ok := wasmExecNode()
+	if !ok {
+		// nothing on this machine executes js/wasm: the target stays covered by the cross-build assertions only
+		return ev.Result{Classes: []string{"js-wasm-not-executed(no node)"}}, nil
+	}
+	dir, err := os.MkdirTemp(os.Getenv("VERIF_TMP"), "c19wasm")
+	if err != nil {
+		return ev.Result{}, ev.Inconclusivef("%v", err)
+	}
+	defer os.RemoveAll(dir)
+	mainSrc, err := os.ReadFile("testdata/jswasm_main.go.txt")
+	if err != nil {
+		return ev.Result{}, ev.Inconclusivef("%v", err)
+	}
+	os.WriteFile(filepath.Join(dir, "main.go"), mainSrc, 0o644)
+	repo := os.Getenv("VERIF_REPO")
+	if repo == "" {
+		repo = "/repo"
+	}
+	gomod := "module jswasm\n\ngo 1.23\n\nrequire (\n\tgithub.com/elastic/go-seccomp-bpf v0.0.0\n\tgolang.org/x/net v0.24.0\n\tgolang.org/x/sys v0.19.0\n)\n\nreplace github.com/elastic/go-seccomp-bpf => " + repo + "\n"
+	os.WriteFile(filepath.Join(dir, "go.mod"), []byte(gomod), 0o644)
+	sum, _ := os.ReadFile(filepath.Join(harnessDir(), "go.sum"))
+	os.WriteFile(filepath.Join(dir, "go.sum"), sum, 0o644)
+	bin := filepath.Join(dir, "prog.wasm")
+	cmd := exec.Command("go", "build", "-o", bin, ".")
+	cmd.Dir = dir
+	cmd.Env = append(os.Environ(), "GOOS=js", "GOARCH=wasm", "GOFLAGS=-mod=mod", "GOPROXY=off", "GOSUMDB=off", "GOTOOLCHAIN=local", "GOWORK=off", "CGO_ENABLED=0")
+	if out, err := cmd.CombinedOutput(); err != nil {
+		// whether the library builds for every target is the cross-build unit's matter
+		return ev.Result{}, ev.Inconclusivef("js/wasm program does not build: %v\n%s", err, clip(string(out), 800))
+	}
+	corpusPath := filepath.Join(dir, "corpus.json")
+	b, _ := json.Marshal(c.Corpus)
+	os.WriteFile(corpusPath, b, 0o644)
+	ctx, cancel := context.WithTimeout(context.Background(), 120*time.Second)
+	defer cancel()
+	run := exec.CommandContext(ctx, node, script, bin, corpusPath)
+	run.Dir = dir
+	var so, se bytes.Buffer
+	run.Stdout, run.Stderr = &so, &se
+	rerr := run.Run()
+	if ctx.Err() != nil {
+		return ev.Result{}, ev.Inconclusivef("js/wasm run timed out")
+	}
+	var r struct {
+		GOOS, GOARCH string
+		Supported    bool
+		NNPErr       string
+		LoadErrs     []string
+		GetInfoErr   string
+		Compiled     []string
+		Errors       []string
+		Panics       []string
+		Policies     int
+		Constants    map[string]uint32
+	}
+	if err := json.Unmarshal(bytes.TrimSpace(so.Bytes()), &r); err != nil || r.GOOS == "" {
+		if strings.Contains(se.String(), "panic:") || strings.Contains(so.String(), "panic:") {
+			return ev.Result{}, fmt.Errorf("a program that imports the library panics on js/wasm before main runs / while running: %s", clip(se.String()+so.String(), 600))
+		}
+		return ev.Result{}, ev.Inconclusivef("js/wasm run: %v, output %q / %q", rerr, clip(so.String(), 300), clip(se.String(), 300))
+	}
+	if r.GOOS != "js" || r.GOARCH != "wasm" {
+		return ev.Result{}, ev.Inconclusivef("program ran as %s/%s", r.GOOS, r.GOARCH)
+	}
+	if len(r.Panics) > 0 {
+		return ev.Result{}, fmt.Errorf("on js/wasm the library panics: %v", r.Panics[:minInt(3, len(r.Panics))])
+	}
+	if r.Supported {
+		return ev.Result{}, fmt.Errorf("on js/wasm Supported() reports seccomp as supported")
+	}
+	// (SetNoNewPrivs and LoadFilter are documented as stubs that never return an error: only their not panicking and
+	// Supported() == false are demanded)
+	if r.GetInfoErr == "" {
+		return ev.Result{}, fmt.Errorf("on js/wasm arch.GetInfo(\"\") returns a table")
+	}
+	if len(r.Compiled) > 0 {
+		return ev.Result{}, fmt.Errorf("on js/wasm (no syscall tables) compilation produces filters instead of failing: %v", r.Compiled[:minInt(3, len(r.Compiled))])
+	}
+	for _, want := range []struct {
+		name string
+		c    string
+	}{{"ActionKillThread", "SECCOMP_RET_KILL_THREAD"}, {"ActionKillProcess", "SECCOMP_RET_KILL_PROCESS"}, {"ActionTrap", "SECCOMP_RET_TRAP"}, {"ActionErrno", "SECCOMP_RET_ERRNO"},
+		{"ActionTrace", "SECCOMP_RET_TRACE"}, {"ActionLog", "SECCOMP_RET_LOG"}, {"ActionAllow", "SECCOMP_RET_ALLOW"}, {"FilterFlagTSync", "SECCOMP_FILTER_FLAG_TSYNC"}, {"FilterFlagLog", "SECCOMP_FILTER_FLAG_LOG"}} {
+		if r.Constants[want.name] != oracle.Const(want.c) {
+			return ev.Result{}, fmt.Errorf("on js/wasm %s = %#x, the kernel's %s is %#x", want.name, r.Constants[want.name], want.c, oracle.Const(want.c))
+		}
+	}
+	res := ev.Result{Classes: []string{"js-wasm-executed", "table-less-target-executed"}, Sub: r.Policies + len(r.LoadErrs) + 3, NonTrivial: true}
+	return res, nil
+}
+
+func TestC19JsWasm(t *testing.T) {
+	ev.Register("C19", "jswasm", checkC19Wasm)
+	seed := int(shardSeed() % 1000000)
+	var c c19WasmCase
+	for _, p := range corpusPolicies(ev.Scale(60, 600), seed+7777) {
+		b, _ := json.Marshal(p)
+		c.Corpus = append(c.Corpus, b)
+	}
+	// degenerate policies: groups without any syscall, a single name, every action as default
+	for _, hand := range []string{
+		`{"arch":"x86_64","default":2147418112,"groups":[{"action":2147418112}]}`,
+		`{"arch":"x86_64","default":327680,"groups":[{"action":2147418112},{"action":0}]}`,
+		`{"arch":"x86_64","default":0,"groups":[{"action":2147418112,"names":[]}]}`,
+		`{"arch":"x86_64","default":2147418112,"groups":[{"action":327680,"names":["execve"]}]}`,
+		`{"arch":"x86_64","default":2147483648,"groups":[{"action":2147418112,"names":["read","write","exit_group"]}]}`,
+	} {
+		c.Corpus = append(c.Corpus, json.RawMessage(hand))
+	}
+	ev.CheckOne(t, "C19", "jswasm", c, checkC19Wasm)
 }
